@@ -1,6 +1,7 @@
 package main
 
 import (
+	"sort"
 	"regexp"
 	"fmt"
 	"go/token"
@@ -963,6 +964,20 @@ func (fv *FuncVerifier) invEnv(st *State, li *loopInfo) *Env {
 		_ = hpos
 		if pick != nil {
 			vars[name] = st.cells[pick]
+		}
+		if name == "rangeindex" || name == "rangeint.iter" {
+			// enclosing range loops: rangeindex2 / rangeindex3 are the hidden counters of the next
+			// outer loops (most recent first)
+			var live []*ssa.Alloc
+			for _, a := range allocs {
+				if _, ok := st.cells[a]; ok && !li.body[a.Block()] {
+					live = append(live, a)
+				}
+			}
+			sort.Slice(live, func(i, j int) bool { return st.allocSeq[live[i]] > st.allocSeq[live[j]] })
+			for k := 1; k < len(live) && k < 3; k++ {
+				vars[fmt.Sprintf("%s%d", strings.ReplaceAll(strings.ReplaceAll(name, "rangeint.iter", "rangeiter"), ".", ""), k+1)] = st.cells[live[k]]
+			}
 		}
 	}
 	// the hidden counter of a range-over-int loop
